@@ -656,3 +656,183 @@ Proof.
   rewrite field_obj_of. rewrite !t_ostr_j_ostr, Tv, Tr, t_pq_tree, t_ty_tree.
   unfold t_str, t_bool, bind. rewrite str_bytes_roundtrip by exact Wi. reflexivity.
 Qed.
+
+(* ---- messages *)
+Lemma fields_roundtrip fs : forall ts, forallb field_wf fs = true -> mapM field_tree fs = Ok ts ->
+  exists fs', mapM field_of_tree ts = Ok fs' /\ Forall2 field_rt fs fs'.
+Proof.
+  induction fs as [|f fs IH]; simpl; intros ts W H.
+  - inversion H; subst. exists []. split; [reflexivity | constructor].
+  - apply andb_true_iff in W. destruct W as [Wf Wfs].
+    apply bind_ok in H. destruct H as [t [Ht H]]. apply bind_ok in H. destruct H as [ts' [Hts H]].
+    inversion H; subst; clear H.
+    destruct (field_roundtrip _ _ Wf Ht) as [f' [Hf R]]. destruct (IH _ Wfs Hts) as [fs' [Hfs F]].
+    exists (f' :: fs'). simpl. rewrite Hf, Hfs. split; [reflexivity | constructor; assumption].
+Qed.
+
+Lemma j_int_inv z t : j_int z = Ok t -> t = JInt z.
+Proof. unfold j_int. destruct (_ && _); intros H; inversion H; reflexivity. Qed.
+
+Lemma iso_obj_of a1 a2 a3 a4 a5 a6 a7 a8 a9 :
+  iso_of_tree (JObj [(k_name, a1); (k_unique_number, a2); (k_manufacturer_code, a3); (k_device_instance, a4);
+                     (k_device_function, a5); (k_device_class, a6); (k_system_instance, a7); (k_industry_group, a8);
+                     (k_aac, a9)])
+  = do n <- t_int a1; do u <- t_int a2; do m <- t_ostr a3; do d <- t_int a4; do f <- t_ostr a5; do c <- t_ostr a6;
+    do s <- t_int a7; do g <- t_ostr a8; do a <- t_bool a9; Ok (IsoDict (mkIso n u m d f c s g a)).
+Proof. reflexivity. Qed.
+
+Definition iso_parsed (i : isov) : isov := match i with IsoNone => IsoNone | IsoObj x | IsoDict x => IsoDict x end.
+Lemma iso_roundtrip i t : iso_tree i = Ok t -> iso_of_tree t = Ok (iso_parsed i).
+Proof.
+  assert (G : forall x, iso_fields x = Ok t -> iso_of_tree t = Ok (IsoDict x)).
+  { intros x H. unfold iso_fields in H.
+    apply bind_ok in H. destruct H as [n [Hn H]]. apply bind_ok in H. destruct H as [u [Hu H]].
+    apply bind_ok in H. destruct H as [d [Hd H]]. apply bind_ok in H. destruct H as [s [Hs H]].
+    apply j_int_inv in Hn, Hu, Hd, Hs. subst. inversion H; subst; clear H.
+    rewrite iso_obj_of. rewrite !t_ostr_j_ostr. simpl. destruct x; reflexivity. }
+  destruct i; simpl; intros H; [inversion H; reflexivity | apply G; exact H | apply G; exact H].
+Qed.
+
+Lemma ttl_roundtrip x t : ttl_tree x = Ok t -> exists x', t_ttl t = Ok x'.
+Proof.
+  assert (G : forall f, exists x', t_ttl (j_float f) = Ok x').
+  { intros f. unfold j_float. destruct (Message.is_finite f); eexists; reflexivity. }
+  destruct x; simpl; intros H.
+  - inversion H. eexists; reflexivity.
+  - destruct (exact_int (n * 1000)); inversion H. apply G.
+  - inversion H. apply G.
+Qed.
+Lemma raw_roundtrip r : exists r', t_raw (raw_tree r) = Ok r'.
+Proof. destruct r; eexists; reflexivity. Qed.
+
+Lemma msg_obj_of a1 a2 a3 a4 a5 a6 a7 a8 a9 a10 a11 a12 :
+  of_tree (JObj [(k_PGN, a1); (k_id, a2); (k_description, a3); (k_ttl, a4); (k_fields, a5); (k_source, a6);
+                 (k_destination, a7); (k_priority, a8); (k_timestamp, a9); (k_source_iso_name, a10); (k_hash, a11);
+                 (k_raw_can_data, a12)])
+  = do pgn <- t_int a1; do i <- t_str a2; do de <- t_str a3; do ttl <- t_ttl a4;
+    do fs <- match a5 with JList l => mapM field_of_tree l | _ => Unmodelled end;
+    do src <- t_int a6; do dst <- t_int a7; do prio <- t_int a8; do ts <- t_str a9;
+    do iso <- iso_of_tree a10; do h <- t_ostr a11; do raw <- t_raw a12;
+    Ok (mkMsg pgn (str_bytes i) de ttl fs src dst prio ts iso h raw).
+Proof. reflexivity. Qed.
+
+Definition msg_wf (m : msg) : bool := bytes_ok (m_id m) && forallb field_wf (m_fields m).
+
+(* from_json (to_json m), above the text layer *)
+Theorem to_of_tree m t : msg_wf m = true -> to_tree m = Ok t ->
+  exists m', of_tree t = Ok m' /\
+    m_pgn m' = m_pgn m /\ m_id m' = m_id m /\ m_descr m' = m_descr m /\
+    m_src m' = m_src m /\ m_dst m' = m_dst m /\ m_prio m' = m_prio m /\ m_ts m' = m_ts m /\
+    m_hash m' = m_hash m /\ m_iso m' = iso_parsed (m_iso m) /\
+    Forall2 field_rt (m_fields m) (m_fields m').
+Proof.
+  unfold msg_wf, to_tree. intros W H. apply andb_true_iff in W. destruct W as [Wi Wf].
+  apply bind_ok in H. destruct H as [pgn [Hpgn H]]. apply bind_ok in H. destruct H as [ttl [Httl H]].
+  apply bind_ok in H. destruct H as [fs [Hfs H]]. apply bind_ok in H. destruct H as [src [Hsrc H]].
+  apply bind_ok in H. destruct H as [dst [Hdst H]]. apply bind_ok in H. destruct H as [prio [Hprio H]].
+  apply bind_ok in H. destruct H as [iso [Hiso H]]. inversion H; subst; clear H.
+  apply j_int_inv in Hpgn, Hsrc, Hdst, Hprio. subst.
+  destruct (ttl_roundtrip _ _ Httl) as [ttl' Tt]. destruct (fields_roundtrip _ _ Wf Hfs) as [fs' [Tf F]].
+  destruct (raw_roundtrip (m_raw m)) as [raw' Tr]. pose proof (iso_roundtrip _ _ Hiso) as Ti.
+  rewrite msg_obj_of. rewrite Tt, Tf, Ti, t_ostr_j_ostr, Tr. unfold t_int, t_str, bind.
+  rewrite str_bytes_roundtrip by exact Wi. eexists. split; [reflexivity|]. simpl. repeat split. exact F.
+Qed.
+
+(* values that survive exactly: everything but binary, dates, times and non-finite doubles *)
+Definition exact_kind (v : value) : bool :=
+  match v with VNone | VInt _ | VText _ => true | VFloat f => Message.is_finite f | _ => false end.
+Lemma render_exact v : exact_kind v = true -> render v = Ok v.
+Proof. destruct v; simpl; intros H; try discriminate; try reflexivity. rewrite H. reflexivity. Qed.
+Lemma render_finite v : value_finite v = true ->
+  match v with VBytes _ | VDate _ | VTime _ => True | _ => render v = Ok v end.
+Proof. destruct v; simpl; intros H; auto. rewrite H. reflexivity. Qed.
+
+(* ---- re-encoding: an encoder that reads, per field, only components that survive exactly *)
+Section Reencode.
+  Variable enc : msg -> result bytes.
+  Variable reads : field -> bool * bool.            (* (reads value, reads raw value), as a function of the field found *)
+
+  Definition field_agree (f f' : field) : Prop :=
+    f_id f' = f_id f /\ (fst (reads f) = true -> f_value f' = f_value f) /\ (snd (reads f) = true -> f_raw f' = f_raw f).
+  Definition agree (m m' : msg) : Prop :=
+    m_pgn m' = m_pgn m /\ m_src m' = m_src m /\ m_dst m' = m_dst m /\ m_prio m' = m_prio m /\
+    Forall2 field_agree (m_fields m) (m_fields m').
+  (* what "reads only" means *)
+  Hypothesis enc_reads : forall m m', agree m m' -> enc m' = enc m.
+
+  Definition reads_exact (f : field) : bool :=
+    (if fst (reads f) then exact_kind (f_value f) else true) && (if snd (reads f) then exact_kind (f_raw f) else true).
+
+  Theorem reencode m t : msg_wf m = true -> to_tree m = Ok t -> forallb reads_exact (m_fields m) = true ->
+    exists m', of_tree t = Ok m' /\ enc m' = enc m.
+  Proof.
+    intros W H R. destruct (to_of_tree m t W H) as [m' [Ho [E1 [_ [_ [E2 [E3 [E4 [_ [_ [_ F]]]]]]]]]]].
+    exists m'. split; [exact Ho|]. apply enc_reads. unfold agree. repeat split; try assumption.
+    revert R F. generalize (m_fields m) (m_fields m'). intros l l' R F. induction F as [|f f' l l' Hf _ IH]; [constructor|].
+    simpl in R. apply andb_true_iff in R. destruct R as [Rf Rl]. constructor; [|apply IH; exact Rl].
+    unfold reads_exact in Rf. apply andb_true_iff in Rf. destruct Rf as [Rv Rr].
+    destruct Hf as [Hid [_ [_ [_ [Hv [Hr _]]]]]]. unfold field_agree. split; [exact Hid|]. split; intros Q; rewrite Q in *.
+    - rewrite (render_exact _ Rv) in Hv. congruence.
+    - rewrite (render_exact _ Rr) in Hr. congruence.
+  Qed.
+End Reencode.
+
+(* the library's generated encoders (python.PGNs.j2 233-247): NUMBER, PGN, FLOAT, RESERVED read the value;
+   LOOKUP, DATE, TIME, DURATION read the raw value and fall back to the value only when it is None *)
+Definition ty_num (t : tyv) : Z := match t with TyEnum n | TyList n => n end.
+Definition lib_reads (f : field) : bool * bool :=
+  let n := ty_num (f_type f) in
+  if (n =? 1) || (n =? 13) || (n =? 2) || (n =? 19) then (true, false)
+  else if (n =? 4) || (n =? 12) || (n =? 10) || (n =? 11)
+       then (match f_raw f with VNone => true | _ => false end, true)
+       else (false, false).
+
+(* ---- dump *)
+Section DumpProofs.
+  Variable md5 : bytes -> zstr.
+  Variable py_str_float : float -> bytes.
+  Variable py_round_ndigits : float -> Z -> float.
+  Variable math_degrees : float -> float.
+  Notation finish := (finish md5 py_str_float py_round_ndigits math_degrees).
+  Notation run := (run md5 py_str_float py_round_ndigits math_degrees).
+
+  (* the lines a list of returned messages should have produced *)
+  Definition dump_of (c : dcfg) (ms : list msg) : list jtree :=
+    flat_map (fun m => match dump_match c m with
+                       | Ok true => match to_tree m with Ok t => [t] | _ => [] end
+                       | _ => [] end) ms.
+  (* every returned message that matches the filter has a JSON line (nothing is silently skipped) *)
+  Definition dumpable (c : dcfg) (m : msg) : Prop :=
+    exists b, dump_match c m = Ok b /\ (b = true -> exists t, to_tree m = Ok t).
+
+  Theorem run_dump c evs : let '(ms, ls) := run c evs in ls = dump_of c ms /\ Forall (dumpable c) ms.
+  Proof.
+    induction evs as [|[a m0] evs IH]; simpl; [split; [reflexivity | constructor]|].
+    destruct (run c evs) as [ms ls]. destruct IH as [-> IH2].
+    destruct (finish c a m0) as [[m [t|]]| |] eqn:F; try (split; [reflexivity | assumption]).
+    - unfold Message.finish in F.
+      apply bind_ok in F. destruct F as [m1 [_ F]]. apply bind_ok in F. destruct F as [m2 [_ F]].
+      apply bind_ok in F. destruct F as [dm [D F]]. destruct dm.
+      + apply bind_ok in F. destruct F as [t' [T F]]. inversion F; subst.
+        split; [simpl; rewrite D, T; reflexivity|].
+        constructor; [|exact IH2]. exists true. split; [exact D|]. intros _. eauto.
+      + inversion F.
+    - unfold Message.finish in F.
+      apply bind_ok in F. destruct F as [m1 [_ F]]. apply bind_ok in F. destruct F as [m2 [_ F]].
+      apply bind_ok in F. destruct F as [dm [D F]]. destruct dm.
+      + apply bind_ok in F. destruct F as [t' [T F]]. inversion F.
+      + inversion F; subst. split; [simpl; rewrite D; reflexivity|].
+        constructor; [|exact IH2]. exists false. split; [exact D|]. discriminate.
+  Qed.
+End DumpProofs.
+
+(* the dump filter: off | empty filter | PGN listed | lower-cased id listed *)
+Theorem dump_match_spec c m b : dump_match c m = Ok b ->
+  b = c_dump_on c && ((zlen (c_dump_pgns c) + zlen (c_dump_ids c) =? 0) || existsb (Z.eqb (m_pgn m)) (c_dump_pgns c) ||
+                      existsb (bytes_eqb (map ascii_lower_b (m_id m))) (c_dump_ids c)).
+Proof.
+  unfold dump_match. destruct (c_dump_on c); simpl; [|intros H; inversion H; reflexivity].
+  destruct (zlen (c_dump_pgns c) + zlen (c_dump_ids c) =? 0); simpl; [intros H; inversion H; reflexivity|].
+  destruct (existsb (Z.eqb (m_pgn m)) (c_dump_pgns c)); simpl; [intros H; inversion H; reflexivity|].
+  unfold py_lower. destruct (forallb _ (m_id m)); simpl; intros H; inversion H; reflexivity.
+Qed.
